@@ -228,6 +228,29 @@ func (fr *Frame) atCall(st *State, key string, c *ssa.CallCommon, pos token.Pos)
 	}
 }
 
+// atPanic checks the "atcall panic@* requires ..." clauses at an explicit panic: the typestate in
+// which the function may give up (e.g. "not while the table locks are held").
+func (fr *Frame) atPanic(st *State, pos token.Pos) {
+	fc := fr.fc
+	if fr.spec == nil || len(fr.spec.AtCalls["panic@*"]) == 0 {
+		return
+	}
+	fr.callCount["atpanic"]++
+	for k, cl := range fr.spec.AtCalls["panic@*"] {
+		env := &Env{fc: fc, fr: fr, st: st, old: fr.top().entry, vars: map[string]Term{}, pkgName: fr.fn.Pkg.Pkg.Name(), at: fr.curBlock}
+		t, err := fc.evalGoal(env, cl)
+		if err != nil {
+			fc.unsupp(pos, "atcall panic@*: %v", err)
+			continue
+		}
+		on := fmt.Sprintf("atcall.panic@all.site%d.%d", fr.callCount["atpanic"], k+1)
+		if cl.Label != "" {
+			on = fmt.Sprintf("atcall.panic@all.site%d.%s", fr.callCount["atpanic"], cl.Label)
+		}
+		fc.addObligation(st, "typestate", fr.oblName(on), t, pos, cl.Src)
+	}
+}
+
 // dynCallName names the variable or field a called function value was read from.
 func dynCallName(v ssa.Value) string {
 	if u, ok := v.(*ssa.UnOp); ok && u.Op == token.MUL {
@@ -651,6 +674,7 @@ func (fr *Frame) builtin(st *State, b *ssa.Builtin, c *ssa.CallCommon, pos token
 	case "ssa:deferstack":
 		return []Term{mk("PNull", SPtr, nil)}
 	case "panic":
+		fr.atPanic(st, pos)
 		fr.callCount["panic"]++
 		if fr.top().spec == nil || !fr.top().spec.MayPanic {
 			fc.addObligation(st, "nopanic", fr.oblName(fmt.Sprintf("nopanic.%d", fr.callCount["panic"])), tBool(false), pos, "explicit panic must be unreachable")
